@@ -177,6 +177,85 @@ def step (op : Op) (a : Args) (pool : Pool) : Except ErrClass Unit × Pool :=
   | .error e => (.error e, pool)
   | .ok () => (.ok (), apply op a pool)
 
+/-! ## system-valued arguments
+
+`add_constraints(cs)`, `add_generators(gs)`, `add_congruences(cgs)`, … of every domain: the call is
+ill-formed as soon as ONE element of the system is, **whatever its position**, and a rejected call
+leaves the receiver unchanged — in particular the elements that precede the offender must not have
+been applied. -/
+
+/-- What the precondition of a system overload looks at in one element. -/
+inductive ElemKind where
+  | ok            -- accepted by the operation
+  | strict        -- a strict inequality
+  | proper        -- a proper congruence (neither tautology nor contradiction)
+  | closurePoint  -- a closure point
+  | unsupported   -- a constraint outside the class of the domain (not a bounded difference, …)
+  | inequality    -- a non-trivial inequality (grids accept equalities only)
+deriving Repr, DecidableEq
+
+inductive DomKind where
+  | polyC | polyNNC | bds | oct | box | grid | mip | pip | powersetC | productCGrid
+deriving Repr, DecidableEq
+
+inductive SysOp where
+  | addConstraints | addGenerators | addCongruences | refine   -- (the `recycled` overloads share the precondition)
+deriving Repr, DecidableEq
+
+/-- Is this element ill-formed for this operation of this domain (documented `std::invalid_argument`)? -/
+def elemBad (d : DomKind) (op : SysOp) (k : ElemKind) : Bool :=
+  match op, k with
+  | .refine, _ => false                               -- refine_with_* ignores what it cannot use
+  | _, .ok => false
+  | .addConstraints, .strict =>
+      -- (PIP_Problem accepts strict inequalities: over the integers `e > 0` is `e ≥ 1`)
+      d == .polyC || d == .bds || d == .oct || d == .mip || d == .powersetC || d == .productCGrid
+  | .addConstraints, .unsupported => d == .bds || d == .oct || d == .box
+  | .addConstraints, .inequality => d == .grid || d == .productCGrid
+  | .addGenerators, .closurePoint => d == .polyC || d == .powersetC
+  | .addCongruences, .proper => d != .grid
+  | _, _ => false
+
+/-- The precondition of a system overload: no element is ill-formed. -/
+def precondSystem (d : DomKind) (op : SysOp) (es : List ElemKind) : Except ErrClass Unit :=
+  bad (es.any (elemBad d op)) .invalidArgument
+
+/-- One system call against a model receiver `σ` (`applyAll` = what the accepted elements do to it). -/
+def stepSystem {σ : Type} (applyAll : List ElemKind → σ → σ) (d : DomKind) (op : SysOp) (es : List ElemKind) (r : σ) :
+    Except ErrClass Unit × σ :=
+  match precondSystem d op es with
+  | .error e => (.error e, r)
+  | .ok () => (.ok (), applyAll es r)
+
+def ElemKind.ofString : String → ElemKind
+  | "strict" => .strict | "proper" => .proper | "closure_point" => .closurePoint
+  | "unsupported" => .unsupported | "inequality" => .inequality | _ => .ok
+
+def DomKind.ofString? : String → Option DomKind
+  | "polyC" => some .polyC | "polyNNC" => some .polyNNC | "bds" => some .bds | "oct" => some .oct | "box" => some .box
+  | "grid" => some .grid | "mip" => some .mip | "pip" => some .pip | "powersetC" => some .powersetC
+  | "productCGrid" => some .productCGrid | _ => none
+
+def SysOp.ofString? : String → Option SysOp
+  | "add_constraints" | "add_recycled_constraints" => some .addConstraints
+  | "add_generators" | "add_recycled_generators" => some .addGenerators
+  | "add_congruences" | "add_recycled_congruences" => some .addCongruences
+  | "refine_with_constraints" | "refine_with_congruences" => some .refine
+  | _ => none
+
+/-- Expected exception class of a journalled system call (`dk=… sop=… elems=k1,k2,…`). -/
+def expectedSystem (toks : List String) : Option String :=
+  let kv := toks.filterMap fun t => match t.splitOn "=" with
+    | [k, v] => some (k, v)
+    | _ => none
+  match (kv.lookup "dk").bind DomKind.ofString?, (kv.lookup "sop").bind SysOp.ofString? with
+  | some d, some op =>
+    let es := (((kv.lookup "elems").getD "").splitOn ",").filter (· ≠ "") |>.map ElemKind.ofString
+    match precondSystem d op es with
+    | .error e => some e.name
+    | .ok () => some "none"
+  | _, _ => none
+
 /-! ## journal interface (used by `Driver/C14.lean`) -/
 
 def Op.ofString? : String → Option Op
